@@ -490,6 +490,23 @@ def t_dv_linked_late():
     return g, dict(sel=[c1], dv=[d1, d2], linked=[[d1, d2]])
 
 
+def t_conn_rows_eq_combs():
+    """three selection options: A offers two optional targets (two connection designs) and a continuous design variable,
+    B offers no target (infeasible, dropped), C offers one target: the number of listed rows equals the number of
+    selection combinations although they do not correspond"""
+    B, N, CN, G, DV, *_ = _imp()
+    g = B()
+    r = N('R')
+    a = [N('A'), N('B'), N('C')]
+    s = [CN('S0', deg_list=[1])]
+    t = [CN('TA1', deg_spec='?'), CN('TA2', deg_spec='?'), CN('TC', deg_spec='?')]
+    dva = DV('DVA', bounds=(2., 4.))
+    c1 = g.add_selection_choice('C1', r, a)
+    g.add_edges([(r, s[0]), (a[0], t[0]), (a[0], t[1]), (a[2], t[2]), (a[0], dva)])
+    cc = g.add_connection_choice('K', s, t)
+    return g.set_start_nodes({r}), dict(sel=[c1], conn=[cc], src=s, tgt=t, dv=[dva])
+
+
 def t_conn_group_tgt():
     """grouping connector on the target side with a conditional member; a source tied to another selection choice"""
     B, N, CN, G, *_ = _imp()
@@ -618,7 +635,7 @@ TEMPLATES = {
     'two_indep': t_two_indep, 'nested': t_nested, 'nested3': t_nested3, 'incompat': t_incompat, 'incompat3': t_incompat3, 'shared_option': t_shared_option, 'forced': t_forced,
     'dv': t_dv, 'dv_single': t_dv_single, 'dv_or_existence': t_dv_or_existence, 'dv_linked': t_dv_linked, 'dv_linked_late': t_dv_linked_late, 'dv_or_direct': t_dv_or_direct, 'dv_same_name': t_dv_same_name, 'dv_linked3_cond': t_dv_linked3_cond, 'sel_linked': t_sel_linked, 'sel_forced_linked': t_sel_forced_linked,
     'conn_simple': t_conn_simple, 'conn_cond': t_conn_cond, 'conn_opt_src': t_conn_opt_src,
-    'conn_infeasible_scenario': t_conn_infeasible_scenario, 'conn_infeasible_dv': t_conn_infeasible_dv, 'conn_cond_choice_dv': t_conn_cond_choice_dv, 'conn_parallel_absent': t_conn_parallel_absent, 'conn_group': t_conn_group,
+    'conn_infeasible_scenario': t_conn_infeasible_scenario, 'conn_infeasible_dv': t_conn_infeasible_dv, 'conn_rows_eq_combs': t_conn_rows_eq_combs, 'conn_cond_choice_dv': t_conn_cond_choice_dv, 'conn_parallel_absent': t_conn_parallel_absent, 'conn_group': t_conn_group,
     'conn_group_finite': t_conn_group_finite, 'conn_group_open': t_conn_group_open, 'conn_group_open2': t_conn_group_open2, 'conn_excl': t_conn_excl, 'conn_two': t_conn_two, 'conn_dv': t_conn_dv,
     'conn_excl_shift': t_conn_excl_shift, 'conn_two_infeasible': t_conn_two_infeasible,
     'conn_group_no_counterpart': t_conn_group_no_counterpart, 'conn_cond_choice': t_conn_cond_choice,
